@@ -10,7 +10,7 @@
 (* rule order and block partition, label names): each observation must     *)
 (* agree with Assemble(P), hence with each other.                          *)
 (***************************************************************************)
-EXTENDS Asm, Json, IOUtils
+EXTENDS Cond, Json, IOUtils
 
 Rec == ndJsonDeserialize(IOEnv.TRACE)
 VARIABLE l
@@ -54,6 +54,9 @@ TAsm ==
     /\ l <= Len(Rec) /\ l' = l + 1
     /\ IF E.ev = "cert" THEN Cert
        ELSE IF E.ev = "asm7" THEN Renderings
+       ELSE IF E.ev = "cond"
+       THEN LET r == AssembleCond(E.prog) IN
+            IF r.t = "skip" THEN Skip(r.why) ELSE JudgeObs(r, E.obs[1], "")
        ELSE LET r == Assemble(E.prog) IN
             IF r.t = "skip" THEN Skip(r.why)
             ELSE \A k \in 1..Len(E.obs) : JudgeObs(r, E.obs[k], IF k = 1 THEN "" ELSE ":rendering")
